@@ -17,5 +17,5 @@ GInit == /\ chunk \in GChunks /\ done = FALSE
          /\ inst = Base /\ phase = "pick" /\ todo = {} /\ order = << >> /\ pos = 1 /\ trees = << >>
          /\ out = [verdict |-> "none", schema |-> {}]
 GNext == /\ ~done /\ done' = TRUE /\ UNCHANGED <<chunk, pvars>>
-         /\ ndJsonSerialize(FileOf(chunk), SetToSeq({Vec(I) : I \in (IF chunk[1] = "combo" THEN Combos(NCombo, AllPlaces(Size)) ELSE PickN(Chunk(chunk), IF chunk[2] = "twin" THEN 3 * NSample ELSE NSample))}))
+         /\ ndJsonSerialize(FileOf(chunk), SetToSeq({Vec(I) : I \in (IF chunk[1] = "combo" THEN Combos(NCombo, AllPlaces(Size)) ELSE PickN(Chunk(chunk), IF chunk[2] = "twin" THEN 3 * NSample ELSE IF chunk[1] = "subimport" THEN 0 ELSE NSample))}))
 =============================================================================
